@@ -483,7 +483,15 @@ func cmdCheck(prop, tier string) int {
 	violations := 0
 	knownPrinted := map[string]bool{}
 	var lines []string
+	seenFinding := map[string]*Finding{}
 	for i, f := range findings {
+		gk := f.Root + "|" + f.ID + "|" + strings.Join(f.Known, ",")
+		if first, ok := seenFinding[gk]; ok {
+			f.Verdict = first.Verdict + " (same finding as " + fmt.Sprint(first.Args) + ")"
+			first.Paths += f.Paths
+			continue
+		}
+		seenFinding[gk] = f
 		switch f.Kind {
 		case "unsupported", "unknown", "blocked":
 			f.Verdict = "inconclusive"
